@@ -112,8 +112,8 @@ def gen_table_case(rng):
             r = rng.random()
             col.append([] if r < 0.08 else rng.choice([[0, 0], [1, 0], [1, 0], [1, 1]]))
         tab.append(col)
-    return {"kind": "table", "members": members, "trios": trios, "tab": tab, "include_hom": False,
-            "positions": sorted(rng.sample(range(1, 20 * n + 2), n))}
+    return {"kind": "table", "members": members, "trios": trios, "tab": tab, "include_hom": rng.random() < 0.25,
+            "positions": sorted(rng.sample(range(1, 20 * n + 2), n)), "acc_seed": rng.randrange(1 << 30)}
 
 
 def do_table(ctx, batch, case):
@@ -153,6 +153,26 @@ def do_table(ctx, batch, case):
             ctx.disagree("c05.phaseable", case, impl, m)
     batch.add({"op": "c05.phaseable", "tab": tab, "trios": [[idx[f], idx[m], idx[c]] for f, m, c in case["trios"]],
                "include_hom": case["include_hom"]}, cb)
+    if "acc_seed" in case:
+        # the rest of the table stage: subset_rows_by_position(accessible positions), the assertion after it, and the genotype
+        # vectors `genotypes_of(sample)` that create_pedigree hands to Pedigree.add_individual
+        import random
+        r2 = random.Random(case["acc_seed"])
+        acc = sorted(p for p in keep_pos if r2.random() < 0.7)
+        if r2.random() < 0.1:
+            acc = sorted(set(acc) | {r2.choice(case["positions"])})        # possibly a position that was not retained
+        pvt.subset_rows_by_position(acc)
+        if len(pvt.variants) != len(acc):
+            impl2 = "AssertionError"
+        else:
+            impl2 = [[list(g.as_vector()) for g in pvt.genotypes_of(s)] for s in members]
+
+        def cb2(req, ans):
+            got = ans.get("genotypes") if isinstance(ans, dict) else ans
+            if got != impl2:
+                ctx.disagree("c05.constraint_table", dict(case, acc=acc), impl2, got)
+        batch.add({"op": "c05.constraint_table", "tab": tab, "trios": [[idx[f], idx[m], idx[c]] for f, m, c in case["trios"]],
+                   "include_hom": case["include_hom"], "var_pos": case["positions"], "acc": acc}, cb2)
 
 
 # ------------------------------------------------------------------------------------------------
@@ -996,6 +1016,7 @@ def check_cli(ctx, batch, case, samples, recs, inrecs, trace, rows=None):
                 ctx.disagree("c05.phaseable(accessible within retained)", case, t["accessible_positions"], sorted(keep_pos))
         batch.add({"op": "c05.phaseable", "tab": tab, "trios": [[fidx[f], fidx[m], fidx[c]] for f, m, c in trios], "include_hom": False}, cb_ph)
         check_traced_recomb(ctx, batch, case, t)
+        check_traced_table(ctx, batch, case, t, tab, pos_list, [[fidx[f], fidx[m], fidx[c]] for f, m, c in trios], False)
         sr = [[[a[0], a[1], b[1]] for a, b in zip(t["superreads"][s][0]["variants"], t["superreads"][s][1]["variants"])] for s in fam]
         ids = t["numeric_sample_ids"]
         name_of = {ids[s]: s for s in fam}
@@ -1046,6 +1067,23 @@ def check_cli(ctx, batch, case, samples, recs, inrecs, trace, rows=None):
 
 def option_value(args, name, default, conv=float):
     return conv(args[args.index(name) + 1]) if name in args else default
+
+
+def check_traced_table(ctx, batch, case, t, tab, pos_list, trios_idx, include_hom):
+    """the genotype vectors handed to the solver (trace: `pedigree.genotype(sample, column)`) = the model's table stage
+    (find_phaseable_variants -> subset_rows_by_position(accessible positions) -> add_individual) on the INPUT genotypes"""
+    fam = t["family"]
+    want = [[list(g) for g in t["genotypes"][s]] for s in fam]
+
+    def cb(req, ans, want=want):
+        ctx.validated()
+        if not isinstance(ans, dict) or ans.get("genotypes") != want:
+            ctx.disagree("c05.constraint_table(trace)", case, want, ans if not isinstance(ans, dict) else ans.get("genotypes"))
+            return
+        if [pos_list[i] for i in ans["rows"]] != list(t["accessible_positions"]):
+            ctx.disagree("c05.constraint_table(rows = accessible positions)", case, t["accessible_positions"], [pos_list[i] for i in ans["rows"]])
+    batch.add({"op": "c05.constraint_table", "tab": tab, "trios": trios_idx, "include_hom": include_hom, "var_pos": pos_list,
+               "acc": t["accessible_positions"]}, cb)
 
 
 def check_traced_recomb(ctx, batch, case, t):
@@ -1136,6 +1174,7 @@ def check_cli_lik(ctx, batch, case, samples, recs, inrecs, trace):
             if not set(t["accessible_positions"]) <= keep_pos:
                 ctx.disagree("c05.phaseable(accessible within retained, distrust)", case, t["accessible_positions"], sorted(keep_pos))
         batch.add({"op": "c05.phaseable", "tab": tab, "trios": [[fidx[f], fidx[m], fidx[c]] for f, m, c in trios], "include_hom": include_hom}, cb_ph)
+        check_traced_table(ctx, batch, case, t, tab, pos_list, [[fidx[f], fidx[m], fidx[c]] for f, m, c in trios], include_hom)
         # ---- super reads and optimal cost
         sr = [[[a[0], a[1], b[1]] for a, b in zip(t["superreads"][s][0]["variants"], t["superreads"][s][1]["variants"])] for s in fam]
         ids = t["numeric_sample_ids"]
